@@ -262,6 +262,27 @@ def resolve(o, consts):
     return o
 
 
+def option_tag(body, o):
+    """'None' / 'Some' when the operand is (a move of) a local built by one Option aggregate; otherwise None"""
+    defs = {}
+    for blk in body['mir']['blocks']:
+        for st in blk['stmts']:
+            if st['k'] == 'assign' and not st['lhs']['p']:
+                defs.setdefault(st['lhs']['l'], []).append(st['rv'])
+    for _ in range(8):
+        pl = (o.get('move') or o.get('copy')) if isinstance(o, dict) else None
+        if not pl or pl['p'] or len(defs.get(pl['l'], [])) != 1:
+            return None
+        rv = defs[pl['l']][0]
+        if rv['k'] == 'agg' and rv['kind'].get('agg') == 'adt' and str(rv['kind'].get('def', '')).endswith('option::Option'):
+            return rv['kind'].get('vname')
+        if rv['k'] in ('use', 'cast'):
+            o = rv['o']
+            continue
+        return None
+    return None
+
+
 def expansion(body):
     """what a witness function builds: dict of raw-constructor arguments in call order"""
     ex = {'Language': [], 'Script': [], 'Region': [], 'Variant': [], 'default_lang': 0, 'ext': [], 'ctor': [], 'other': []}
@@ -281,6 +302,8 @@ def expansion(body):
             continue
         if name.endswith('::from_raw_parts_unchecked'):
             ex['ctor'].append(name.split('::')[-2])
+            # how "no variants" / "some variants" is represented in the value handed to the unchecked constructor (argument 3)
+            ex.setdefault('variants_repr', []).append(option_tag(body, t['args'][3]) if len(t['args']) > 3 else None)
             continue
         ex['other'].append(name)
     return ex
@@ -367,6 +390,11 @@ def witness_obligations(rep, tier, prog):
                             probs.append('%s %s != expected %s' % (f, ex[f], want[f]))
                     if (ex['default_lang'] > 0) != (want['default_lang'] > 0):
                         probs.append('empty language %s' % ('not ' if want['default_lang'] else 'unexpectedly ') + 'built with Language::default()')
+                    # "no variants" is None, never Some(empty list): the unchecked constructor stores what it is given
+                    vr = ex.get('variants_repr') or [None]
+                    if vr[0] != ('Some' if want['Variant'] else 'None'):
+                        probs.append('variants are handed to the unchecked constructor as %s, the canonical representation is %s' % (
+                            vr[0] or 'an expression the reader does not resolve', 'Some(sorted list)' if want['Variant'] else 'None'))
                     if kind == 'locale':
                         if ex['ext'] != [want['ext']]:
                             probs.append('extension string %r != expected canonical %r' % (ex['ext'], want['ext']))
